@@ -69,6 +69,17 @@ def file_spec(draw, i):
 def cases(draw):
     n = draw(st.integers(1, 7))
     files = [draw(file_spec(i)) for i in range(n)]
+    if draw(st.integers(0, 2)) == 0:
+        # the same 1.0 document three times, the middle copy made unconvertible by a trailing Section
+        # without name: whatever state a failed conversion leaves behind meets the same names again
+        shared = draw(conv10.doc10(1))
+        if not shared["sections"]:
+            shared = dict(shared, sections=[{"name": "S", "type": "t", "id": None, "definition": None,
+                                             "reference": None, "props": [], "sections": [], "extra": []}])
+        sub = draw(st.sampled_from([[], [0]]))
+        for key, kind in ((3, "v10_xml"), (4, "v10_nameless_section"), (5, "v10_xml")):
+            files.append({"kind": kind, "ext": ".xml", "key": key, "i": len(files), "dir": sub, "pct": False,
+                          "doc": shared, "native": False})
     tool = draw(st.sampled_from(["odmlconvert", "odmltordf", "fc_convert_dir", "fc_convert"]))
     case = {"files": files, "tool": tool, "recursive": draw(st.booleans()),
             "explicit_out": draw(st.booleans()), "dirname": draw(st.sampled_from(DIRNAMES)),
